@@ -60,12 +60,46 @@ func do(name string, args ...string) string {
 	out.WriteString(name)
 	for _, a := range args {
 		out.WriteByte('\t')
-		out.WriteString(a)
+		out.WriteString(esc(a))
 	}
 	out.WriteByte('\t')
-	out.WriteString(res)
+	out.WriteString(esc(res))
 	out.WriteByte('\n')
 	return res
+}
+
+// esc / unesc: the line protocol is TAB- and newline-separated; arguments that contain those characters (malformed IDs with a
+// trailing line terminator) travel escaped
+func esc(s string) string {
+	if !strings.ContainsAny(s, "\\\n\r\t") {
+		return s
+	}
+	return strings.NewReplacer("\\", "\\\\", "\n", "\\n", "\r", "\\r", "\t", "\\t").Replace(s)
+}
+
+func unesc(s string) string {
+	if !strings.Contains(s, "\\") {
+		return s
+	}
+	var b strings.Builder
+	for i := 0; i < len(s); i++ {
+		if s[i] == '\\' && i+1 < len(s) {
+			i++
+			switch s[i] {
+			case 'n':
+				b.WriteByte('\n')
+			case 'r':
+				b.WriteByte('\r')
+			case 't':
+				b.WriteByte('\t')
+			default:
+				b.WriteByte(s[i])
+			}
+			continue
+		}
+		b.WriteByte(s[i])
+	}
+	return b.String()
 }
 
 // split: text → slice handed to the library. While trackSlices is on, every slice is remembered with a copy so that the
@@ -191,6 +225,9 @@ func replay(path string, dropLast bool) {
 			continue
 		}
 		fs := strings.Split(line, "\t")
+		for i := range fs {
+			fs[i] = unesc(fs[i])
+		}
 		if dropLast && len(fs) > 1 {
 			fs = fs[:len(fs)-1]
 		}
